@@ -102,7 +102,12 @@ impl Bracket {
             complement: false,
             items: Vec::new(),
         };
+        // Whether the last item pushed to `bracket.items` was a quoted character
+        let mut last_is_quoted = false;
         while let Some(pc) = i.next() {
+            // A quoted hyphen is not a range operator.
+            let may_be_range = !last_is_quoted;
+            last_is_quoted = false;
             match pc {
                 PatternChar::Normal(']') if !bracket.items.is_empty() => return Some((bracket, i)),
                 PatternChar::Normal('!' | '^')
@@ -118,9 +123,14 @@ impl Bracket {
                         bracket.items.push(Atom(Char('[')));
                     }
                 }
-                c => bracket.items.push(Atom(Char(c.char_value()))),
+                c => {
+                    last_is_quoted = matches!(c, PatternChar::Literal(_));
+                    bracket.items.push(Atom(Char(c.char_value())))
+                }
             }
-            make_range(&mut bracket.items);
+            if may_be_range {
+                make_range(&mut bracket.items);
+            }
         }
         None
     }
